@@ -94,6 +94,31 @@ pub fn check(em: &Emitted, all_subranges: bool) -> (Vec<(String, String)>, u64) 
         b.push(f.text.len());
         b.sort_unstable();
         b.dedup();
+        // ranges that begin or end within two bytes of a hint (inside the name or the argument it belongs
+        // to): from the start of the file, to its end, and between two such offsets
+        let mut near: Vec<usize> = want.iter().flat_map(|(h, _)| [h.saturating_sub(2), h.saturating_sub(1), *h, (h + 1).min(f.text.len()), (h + 2).min(f.text.len())]).collect();
+        near.retain(|o| f.text.is_char_boundary(*o));
+        near.sort_unstable();
+        near.dedup();
+        let mut near_ranges: Vec<(usize, usize)> = Vec::new();
+        for &o in &near {
+            near_ranges.push((0, o));
+            near_ranges.push((o, f.text.len()));
+        }
+        for w in near.windows(2) {
+            near_ranges.push((w[0], w[1]));
+        }
+        for (s, e) in near_ranges {
+            checked += 1;
+            for h in a.inlay_hint(range(s, e)).unwrap_or_default() {
+                let p = usize::from(h.position);
+                if !want.contains(&(p, h.label.clone())) {
+                    push("inlay-hint-unexpected", format!("{}: range {s}..{e}: hint {:?} at {} is not a hint of the file", f.name, h.label, line_of(em, i, p)));
+                } else if p < s || p > e {
+                    push("inlay-hint-outside-range", format!("{}: range {s}..{e}: hint {:?} at offset {p} ({}) lies outside the requested range", f.name, h.label, line_of(em, i, p)));
+                }
+            }
+        }
         let step = if all_subranges { 1 } else { 3 };
         for (k, &s) in b.iter().enumerate() {
             for &e in b[k..].iter().step_by(step) {
@@ -130,7 +155,7 @@ impl Engine for C19 {
     fn rule(&self, tier: Tier) -> String {
         format!(
             "hover programs: doc comments of 0..2 lines, attached or detached by a blank line, and four shapes with a banner comment above a blank line above the documentation (only the lines below the blank line document), on class / field / def / multiclass declarations x class references with 0..3 positional arguments followed by 0..1 named ones in parent lists, class values, nested class values and defset members x field overrides x 2 layouts; \
-             plus the declaration-structure programs (wrapper depth <= {}) and the well-scoped scope programs (depth <= {}). Every program is printed twice: plainly and with a comment after every identifier. Hover is requested at every offset of every resolved identifier; inlay hints for the whole file and for {} token-boundary sub-range. \
+             plus the declaration-structure programs (wrapper depth <= {}) and the well-scoped scope programs (depth <= {}). Every program is printed twice: plainly and with a comment after every identifier. Hover is requested at every offset of every resolved identifier; inlay hints for the whole file and for {} sub-range between token boundaries and the offsets within two bytes of a hint. \
              non-trivial = every program; distinct by construction.",
             tier.pick(1, 3),
             tier.pick(1, 2),
